@@ -40,6 +40,7 @@ pub struct SolverCache<D: DependencyProvider> {
     /// A mapping from a solvable to a list of dependencies
     solvable_dependencies: Arena<DependenciesId, Dependencies>,
     solvable_to_dependencies: FrozenCopyMap<SolvableId, DependenciesId>,
+    solvable_to_dependencies_in_flight: RefCell<HashMap<SolvableId, Rc<Event>>>,
 
     /// A mapping that indicates that the dependencies for a particular solvable
     /// can cheaply be retrieved from the dependency provider. This
@@ -48,16 +49,16 @@ pub struct SolverCache<D: DependencyProvider> {
     hint_dependencies_available: RefCell<BitVec>,
 }
 
-/// Removes the in-flight marker of a candidates request and wakes up everybody
-/// waiting for it, both when the request completes and when it is abandoned.
-struct InFlightGuard<'a> {
-    in_flight: &'a RefCell<HashMap<NameId, Rc<Event>>>,
-    package_name: NameId,
+/// Removes the in-flight marker of a request and wakes up everybody waiting for
+/// it, both when the request completes and when it is abandoned.
+struct InFlightGuard<'a, K: Eq + std::hash::Hash + Copy> {
+    in_flight: &'a RefCell<HashMap<K, Rc<Event>>>,
+    key: K,
 }
 
-impl Drop for InFlightGuard<'_> {
+impl<K: Eq + std::hash::Hash + Copy> Drop for InFlightGuard<'_, K> {
     fn drop(&mut self) {
-        if let Some(notifier) = self.in_flight.borrow_mut().remove(&self.package_name) {
+        if let Some(notifier) = self.in_flight.borrow_mut().remove(&self.key) {
             notifier.notify(usize::MAX);
         }
     }
@@ -76,6 +77,7 @@ impl<D: DependencyProvider> SolverCache<D> {
             requirement_to_sorted_candidates: Default::default(),
             solvable_dependencies: Default::default(),
             solvable_to_dependencies: Default::default(),
+            solvable_to_dependencies_in_flight: Default::default(),
             hint_dependencies_available: Default::default(),
         }
     }
@@ -134,7 +136,7 @@ impl<D: DependencyProvider> SolverCache<D> {
                         // otherwise wait forever for a notification that never comes.
                         let in_flight_guard = InFlightGuard {
                             in_flight: &self.package_name_to_candidates_in_flight,
-                            package_name,
+                            key: package_name,
                         };
 
                         // Otherwise we have to get them from the DependencyProvider
@@ -360,21 +362,50 @@ impl<D: DependencyProvider> SolverCache<D> {
         &self,
         solvable_id: SolvableId,
     ) -> Result<&Dependencies, Box<dyn Any>> {
-        let dependencies_id = match self.solvable_to_dependencies.get_copy(&solvable_id) {
-            Some(id) => id,
-            None => {
-                // Since getting the dependencies from the provider is a potentially blocking
-                // operation, we want to check beforehand whether we should cancel the solving
-                // process
-                if let Some(value) = self.provider.should_cancel_with_value() {
-                    return Err(value);
-                }
+        let dependencies_id = loop {
+            if let Some(id) = self.solvable_to_dependencies.get_copy(&solvable_id) {
+                break id;
+            }
 
-                let dependencies = self.provider.get_dependencies(solvable_id).await;
-                let dependencies_id = self.solvable_dependencies.alloc(dependencies);
-                self.solvable_to_dependencies
-                    .insert_copy(solvable_id, dependencies_id);
-                dependencies_id
+            // Since getting the dependencies from the provider is a potentially blocking
+            // operation, we want to check beforehand whether we should cancel the solving
+            // process
+            if let Some(value) = self.provider.should_cancel_with_value() {
+                return Err(value);
+            }
+
+            // Check if there is an in-flight request, e.g. because `sort_candidates`
+            // asks for the dependencies of a solvable the solver is already fetching.
+            let in_flight_request = self
+                .solvable_to_dependencies_in_flight
+                .borrow()
+                .get(&solvable_id)
+                .cloned();
+            match in_flight_request {
+                Some(in_flight) => {
+                    // Wait for that request to finish (or to be abandoned) and look again.
+                    in_flight.listen().await;
+                }
+                None => {
+                    self.solvable_to_dependencies_in_flight
+                        .borrow_mut()
+                        .insert(solvable_id, Rc::new(Event::new()));
+                    let in_flight_guard = InFlightGuard {
+                        in_flight: &self.solvable_to_dependencies_in_flight,
+                        key: solvable_id,
+                    };
+
+                    let dependencies = self.provider.get_dependencies(solvable_id).await;
+                    let dependencies_id = self.solvable_dependencies.alloc(dependencies);
+                    self.solvable_to_dependencies
+                        .insert_copy(solvable_id, dependencies_id);
+
+                    // Remove the in-flight marker now that the result is stored and notify
+                    // any waiters
+                    drop(in_flight_guard);
+
+                    break dependencies_id;
+                }
             }
         };
 
